@@ -463,6 +463,90 @@ def evaluate_names(ctx, harness, driver, glines, workdir):
     return recs, info
 
 
+# ------------------------------------------------------------------ exports at different moments of ONE object's life (stream LF)
+# One Circuit is exported again and again under the SAME name: outside the placement calls after public edits (positions, orientations,
+# sizes, nets) and from INSIDE the callbacks of placeGlobal / legalize / placeDetailed (sizes changed by setCellWidth / setCellHeight
+# inside a callback in between).  harness/ispd.cpp snapshots every export at once (files copied aside, circuit dumped through the
+# getters); each snapshot is judged like a one-shot case against the circuit AS IT WAS AT THAT MOMENT: bytes vs the model's export of
+# that state, the real coloquinte.py on the snapshot vs the model's reader, the C20 statement field by field and Circuit::hpwl.
+
+N_LIFE_Q = 250
+
+
+def parse_life(line):
+    t = line.split()
+    return t[1], int(t[2]), t[3]          # id, mode (1 = exported under an absolute path), name
+
+
+def evaluate_life(ctx, harness, driver, llines, workdir):
+    if not llines:
+        return [], {}
+    lout, _, _ = common.run_both([harness, "run", workdir], None, llines, chunk=60)
+    snaps = []            # (case index, k, files # hpwl, circuit ints text, label)
+    info = {"objects": len(llines), "exports": 0, "exports_inside_a_callback": 0, "exports_after_a_size_change_inside_a_callback_of_the_same_run": 0,
+            "exports_outside_a_placement_call_after_public_edits": 0, "objects_exported_2+_times_under_one_name": 0, "placement_calls_that_threw": 0,
+            "cases_without_outcome": 0, "exports_that_threw": 0, "by_stage_of_the_callback": {}}
+    broken = []
+    for ci, (l, o) in enumerate(zip(llines, lout)):
+        ents = [e.split(" @ ") for e in o.split(" || ")]
+        if any(len(e) != 3 for e in ents):
+            info["cases_without_outcome"] += 1
+            broken.append((l, o[:300]))
+            continue
+        info["objects_exported_2+_times_under_one_name"] += len(ents) > 1
+        for k, (files, circ, label) in enumerate(ents):
+            snaps.append((ci, k, files, circ, label))
+            info["exports"] += 1
+            if label.startswith("inside callback"):
+                info["exports_inside_a_callback"] += 1
+                st = label.split(" of ")[1].split(",")[0].strip() if " of " in label else "?"
+                info["by_stage_of_the_callback"][st] = info["by_stage_of_the_callback"].get(st, 0) + 1
+                info["exports_after_a_size_change_inside_a_callback_of_the_same_run"] += ("after setCell" in label)
+            elif label.startswith("outside"):
+                info["exports_outside_a_placement_call_after_public_edits"] += 1
+            info["placement_calls_that_threw"] += " threw: " in label
+            info["exports_that_threw"] += files.startswith("EXPORT-THROW")
+    # the real reader on every snapshot, ONE Python process
+    env = dict(os.environ, VERIF_REPO=common.REPO, PYTHONDONTWRITEBYTECODE="1")
+    env.pop("PYTHONPATH", None)
+    reads = []
+    for ci, k, files, circ, label in snaps:
+        cid, mode, name = parse_life(llines[ci])
+        reads.append((os.path.join(workdir, "l" + cid, "s%d" % k), name + ".aux"))
+    try:
+        p = subprocess.run([sys.executable, "-c", NAME_READER, os.path.dirname(PYREAD)], input="".join("%s\t%s\n" % r for r in reads),
+                           capture_output=True, text=True, timeout=900, env=env, cwd=workdir)
+        got, err = [x for x in p.stdout.split("\n") if x], p.stderr.strip()[-300:]
+    except subprocess.TimeoutExpired:
+        got, err = [], "timeout"
+    got += ["ERR <reader process died: %s>" % err.replace("\n", " ")] * (len(reads) - len(got))
+    # the model: the circuit of that moment as an EX line
+    exl = ["EX f%s_%d %s" % (parse_life(llines[ci])[0], k, circ) for ci, k, files, circ, label in snaps]
+    _, model, _ = common.run_both([harness, "run", workdir], [driver], exl, chunk=400) if exl else (None, [], None)
+    recs = []
+    for (ci, k, files, circ, label), py, ex, m in zip(snaps, got, exl, model):
+        cid, mode, name = parse_life(llines[ci])
+        r = {"case": ex, "group": llines[ci], "py": py, "impl": files,
+             "name_note": "export #%d of the object's life (%s), exportIspd(\"%s\"), files read back from the copy made at that moment: "
+                          % (k, label, ("<DIR>/l%s/" % cid if mode == 1 else "") + name)}
+        mp = m.split(" @@ ")
+        if len(mp) != 4:
+            r["model_error"] = m
+            mp = ["<model failed: %s>" % m, "ERR", "0", ""]
+        sub = lambda fs: "|".join([f.replace("cf%s_%d." % (cid, k), name + ".") if j == 0 else f for j, f in enumerate(fs.split("|"))])
+        hp = mp[0].rsplit(" # ", 1)
+        r["m_files"] = sub(hp[0]) + (" # " + hp[1] if len(hp) == 2 else "")
+        r["m_read"], r["m_wf"], r["m_unfixed"] = mp[1], mp[2] == "1", sub(mp[3])
+        recs.append(r)
+    hw = [(k, "HW " + r["py"][2:]) for k, r in enumerate(recs) if r["py"].startswith("R ")]
+    if hw:
+        hi, hm, _ = common.run_both([harness, "run", workdir], [driver], [x for _, x in hw], chunk=400)
+        for (k, _), a, b in zip(hw, hi, hm):
+            recs[k]["hpwl_back_impl"], recs[k]["hpwl_back_model"] = a.strip(), b.strip()
+    info["no_outcome_cases"] = broken[:3]
+    return recs, info
+
+
 def scratch_base():
     """directory for the exported files of one run (5 files per case, removed at the end): a tmpfs when there is one"""
     for d in ("/dev/shm",):
@@ -512,6 +596,12 @@ def run(ctx):
             glines += name_groups(s, pool, (N_GROUPS_Q if ctx.quick else 6000) // len(seeds))
         nrecs, ninfo = evaluate_names(ctx, harness, driver, glines, workdir)
         recs += nrecs
+        # exports at different moments of one object's life, all under one name (LF): inside callbacks of running placements, between public edits
+        llines = list(common.corpus("C20", ("LF ",)))
+        for s in seeds:
+            llines += common.harness_gen(harness, ["life", s, (N_LIFE_Q if ctx.quick else 6000) // len(seeds)])
+        lrecs, linfo = evaluate_life(ctx, harness, driver, llines, workdir)
+        recs += lrecs
     finally:
         shutil.rmtree(workdir, ignore_errors=True)
     n_vm, vm_bad = vm_crosscheck(recs)
@@ -664,7 +754,8 @@ def run(ctx):
                     "tools/bindings.py: text-level translator of module.cpp / coloquinte.hpp (entry count cross-checked against the source on every run)",
                     "operator<<(double) is modelled only for |value| < 10^5 (THalf); the lexing of the files by Python's split/int/float is tied by the "
                     "reader comparison, not modelled character by character"],
-                "evaluations": len(lines) + len(nrecs), "distinct_nontrivial": len(nontriv),
+                "evaluations": len(lines) + len(nrecs) + len(lrecs), "distinct_nontrivial": len(nontriv),
+                "export_moments": linfo, "export_moment_samples": [l[:200] for l in llines[:2]],
                 "rule": "distinct circuits that are in the domain of c20_roundtrip AND have a pin on a cell whose orientation is not N AND a row whose "
                         "orientation is not N (the inputs on which the unchanged exporter is wrong).  Export NAMES (export_names, stream NG): groups of "
                         "exports into one directory, names with dots in the last component (incl. components equal to the format's own "
@@ -672,7 +763,14 @@ def run(ctx):
                         "names sharing a stem side by side in either order, a name exported twice (the last circuit must come back); every "
                         "file left on disk is read by ONE Python process (absolute path, path relative to the directory, path without .aux, "
                         "some twice) and must give back the circuit of ITS OWN (last) export: bytes vs the model with the name as given in "
-                        "the .aux, reader vs the model's reader, the C20 statement field by field and Circuit::hpwl",
+                        "the .aux, reader vs the model's reader, the C20 statement field by field and Circuit::hpwl.  Export MOMENTS (export_moments, "
+                        "stream LF, harness/ispd.cpp runLife): ONE Circuit (2-5 rows, 3-8 movable + 0-2 fixed cells, 2-6 nets, placeable) lives through 2-4 phases "
+                        "and is exported up to 14 times under ONE name (bare or absolute): before any call, outside the calls after public edits (setCellX/Y, "
+                        "setCellOrientation, setSolution, setCellWidth/Height, addNet, setNets), from INSIDE the callbacks of placeGlobal (40 % of the phases) / "
+                        "legalize / placeDetailed (first invocation always, later ones in 60 %), with setCellWidth / setCellHeight called inside 35 % of the "
+                        "global callbacks after the export (sometimes one more export in the same callback; seldom a resize in a legalize / detailed callback, "
+                        "which makes that call throw), and after each call; every export is copied aside at once and judged against the circuit AS IT WAS AT THAT "
+                        "MOMENT (getters): bytes vs the model's export of that state, real reader vs model reader, statement field by field, Circuit::hpwl",
                 "export_names": ninfo, "export_name_samples": [g[:160] for g in glines[:3]],
                 "exhaustive_grid_cases": len(grid),
                 "samples": samples, "input_distribution": dist, "bindings": binfo,
@@ -706,6 +804,35 @@ def replay(ctx, path):
     case = r.get("case") or r["first_difference"]["case"]
     if isinstance(case, list):
         case = case[0]
+    if case.startswith("LF "):
+        harness = common.build_harness("ispd")
+        driver = common.build_driver("ispd")
+        workdir = os.path.join(scratch_base(), "c20_replay_%d" % os.getpid())
+        os.makedirs(workdir, exist_ok=True)
+        try:
+            recs, info = evaluate_life(ctx, harness, driver, [case], workdir)
+        finally:
+            shutil.rmtree(workdir, ignore_errors=True)
+        print("case  :", case)
+        bad = bool(info.get("cases_without_outcome"))
+        for rec in recs:
+            orig = circuit_of_line(rec["case"])
+            print("--", rec["name_note"])
+            print("   circuit at that moment:", rec["case"].split(" ", 2)[2][:300])
+            print("   python:", rec["py"][:300])
+            if rec["impl"].rsplit(" # ", 1)[0] != rec["m_files"].rsplit(" # ", 1)[0]:
+                print("   files differ from the model of that state:", first_diff(rec["impl"].rsplit(" # ", 1)[0], rec["m_files"].rsplit(" # ", 1)[0])); bad = True
+            if (rec["py"] if rec["py"].startswith("R ") else "ERR") != rec["m_read"]:
+                print("   reader differs from the model's reader"); bad = True
+            if in_domain(orig):
+                if rec["py"].startswith("R "):
+                    d = compare_roundtrip(orig, parse_circuit([int(x) for x in rec["py"].split()[1:]]))
+                    for kind, detail in d:
+                        print("   differs:", kind, "--", detail)
+                    bad = bad or bool(d) or rec.get("hpwl_back_impl") != rec["impl"].rsplit(" # ", 1)[1].strip()
+                else:
+                    print("   the reader refused an exported circuit"); bad = True
+        return 1 if bad else 0
     if case.startswith("NG "):
         harness = common.build_harness("ispd")
         driver = common.build_driver("ispd")
